@@ -60,7 +60,14 @@ claim("C11", "guarded-by analysis (must-hold lockset dataflow, sync.Once Do-clos
       "(R11d) observer callbacks (run on the engine goroutine) write no captured variable; (R11e) a guarded resource is not used after its lock "
       "is released. Races inside dependencies and serial equivalence of results are not decided.", NOTE, "DESIGN.md §3 C11")
 
-for pid in ["C02","C04","C05","C07","C09","C10","C12","C13","C15","C16","C18"]:
+claim("C18", "capability reachability over the VTA call graph with interpreter dispatch cut, registrar-combinator resolution, who-may-call and data-flow of the sandbox scope",
+      "Decides the reachability clauses of the sandbox property: (S18a) from each of the 66 Go natives registered in the safe library no process-"
+      "execution, network, file-content, unsafe-library or import-resolution capability is reachable (interpreter dispatch cut: evaluating an existing "
+      "value mints no capability); (S18b) only host code calls StdScope; (S18c) the scope contextualEval evaluates with has `//` bound on every "
+      "path and defaults to the safe library. Four genuine routes exist today and are listed as known findings. Leaks through a dependency's "
+      "internals are not decided; the call graph over-approximates, so the claim is level other.", NOTE, "DESIGN.md §3 C18")
+
+for pid in ["C02","C04","C05","C07","C09","C10","C12","C13","C15","C16"]:
     na(pid, "check under construction in this session (see DESIGN.md §3); not claimed until its rules are registered")
 na("C14", "agreement of a hand-written array matcher with strings/bytes over all sequences is a relation between runtime values computed by "
           "loops with data-dependent indices; no sound structural clause with teeth exists (DESIGN.md §3 C14)")
